@@ -445,6 +445,23 @@ theorem parserAllNodes_spec {root : Node} (h : root.Distinct) (hw : root.elem.ta
   rw [this.2, hac.2, Node.preorder_eq]
   simp [TC.append, TC.empty]
 
+/-- `parser.getAllNodes` for a document with several roots (the invisible wrapper is skipped). -/
+theorem parserAllNodes_wrapper {root : Node} (h : root.Distinct) (hw : root.elem.tag = wrapperTag) :
+    TC.Inv (parserAllNodes root) ∧ (parserAllNodes root).items = root.desc := by
+  have key : ∀ (ks : List Node) (ret : TC),
+      ks.foldl (fun ret r => (ret.append r).iadd (allChildNodes r).items) ret = allChildNodesL ret ks := by
+    intro ks
+    induction ks with
+    | nil => intro ret; rfl
+    | cons k ks ih => intro ret; simp only [List.foldl_cons, allChildNodesL, ih]
+  have hEq : parserAllNodes root = allChildNodes root := by
+    cases root with
+    | mk e ks =>
+      simp only [parserAllNodes, rootNodes, Node.elem] at hw ⊢
+      simp only [hw, if_true, Node.kids, key, allChildNodes]
+  rw [hEq]
+  exact allChildNodes_spec root h
+
 /-- `TagCollection.getAllNodes`: members and descendants, first occurrence wins. -/
 theorem collAllNodes_eq {ms : List Node} (h : ∀ m ∈ ms, m.Distinct) :
     collAllNodes ms = TC.ofList (ms.flatMap Node.preorder) := by
